@@ -404,4 +404,48 @@ static inline void to3d(const char* i0s) {
     if (!ok) std::printf(" bad=%ld", bad);
     std::printf("\n");
 }
+
+// a mask view as the source of a 3-D range view of a larger tensor (teval_s / teval of TensorFilterViewExpr)
+template<typename T, size_t D0, size_t D1, size_t D2, int DYN>
+static inline void filt3(const char* mask) {
+    using namespace Fastor;
+    std::printf("fview3 cfg=%s sz=%d d0=%zu d1=%zu d2=%zu mask=%s dyn=%d", CFGNAME, (int)sizeof(T), D0, D1, D2, mask, DYN);
+    std::fflush(stdout);
+    Case<T>::begin();
+    using BT = Tensor<T,D0+1,D1+1,D2+2>; using PT = Tensor<T,D0,D1,D2>;
+    BT* B = arena_tensor<BT>(0); PT* A = arena_tensor<PT>(1);
+    Tensor<bool,D0,D1,D2> fl; for (size_t p = 0; p < D0 * D1 * D2; ++p) fl.data()[p] = mask[p] == '1';
+    vf::trace.clear(); vf::trace.on = true;
+    if (DYN) (*B)(seq(0, (int)D0), seq(0, (int)D1), seq(0, (int)D2)) = (*A)(fl);
+    else (*B)(fseq<0,(int)D0>(), fseq<0,(int)D1>(), fseq<0,(int)D2>()) = (*A)(fl);
+    vf::trace.on = false;
+    auto s = summarise(0, g_verbose);
+    bool ok = true; long bad = -1;
+    for (size_t x = 0; x < D0 + 1 && ok; ++x) for (size_t y = 0; y < D1 + 1 && ok; ++y) for (size_t z = 0; z < D2 + 2 && ok; ++z) {
+        size_t q = (x * (D1 + 1) + y) * (D2 + 2) + z, p = (x * D1 + y) * D2 + z;
+        Poly want = (x < D0 && y < D1 && z < D2) ? (mask[p] == '1' ? tokp(1, p) : Poly{}) : tokp(0, q);
+        if (want != pool.v[B->data()[q].h]) { ok = false; bad = q; }
+    }
+    auto vw = (*A)(fl);
+    constexpr size_t V = PT::simd_vector_type::Size;
+    uint64_t tes = 0, tev = 0;
+    for (size_t x = 0; x < D0; ++x) for (size_t y = 0; y < D1; ++y) for (size_t z = 0; z < D2; ++z) {
+        std::array<int,3> as = {(int)x, (int)y, (int)z};
+        tes = dg(tes, vw.template teval_s<T>(as));
+        if (z + V <= D2) { auto vec = vw.template teval<T>(as); for (size_t l = 0; l < V; ++l) tev = dg(tev, vec[l]); }
+    }
+    std::printf(" | V=%d VAL=%s NW=%ld TES=%s TEV=%s OOB=%ld ORACLE=%s", (int)V, hex16(val_digest(B->data(), (D0 + 1) * (D1 + 1) * (D2 + 2))).c_str(), s.nw,
+                hex16(tes).c_str(), hex16(tev).c_str(), s.oob, ok ? "ok" : "FAIL");
+    if (!ok) std::printf(" bad=%ld", bad);
+    std::printf("\n");
+}
+template<typename T, size_t D0, size_t D1, size_t D2, int DYN>
+static inline void filt3_seeded(int count, unsigned seed) {
+    uint64_t st = seed * 2654435761u + 99;
+    for (int q = 0; q < count; ++q) {
+        std::string m(D0 * D1 * D2, '0');
+        for (auto& ch : m) { st = mix64(st); ch = (q == 0 || (st >> 13 & 3)) ? '1' : '0'; }
+        filt3<T,D0,D1,D2,DYN>(m.c_str());
+    }
+}
 } // namespace rv
